@@ -16,7 +16,7 @@ from sx.terms import in_ranges, ranges
 
 BOUNDS = {
     "quick": {"iban": "countries: one per table signature at their own length; all lengths 0..40 for 8 seeded countries + unknown prefix", "bic": "lengths 0..14, both modes", "alphabet": "all code points (clean-stable)"},
-    "thorough": {"iban": "all countries x lengths 0..40 + unknown prefix", "bic": "lengths 0..14, both modes", "alphabet": "all code points (clean-stable)"},
+    "thorough": {"iban": "every country (one per table signature) at its own length; all lengths 0..40 for 48 seeded countries + unknown prefix (all 126 x 41 did not finish in 25 min on 16 cores)", "bic": "lengths 0..14, both modes", "alphabet": "all code points (clean-stable)"},
 }
 STUBS = c01.STUBS + c04.STUBS
 ASSUMPTIONS = c01.ASSUMPTIONS + ["InvalidBBANChecksum label soundness is decided in C06/C07 (national references live there)"]
@@ -27,13 +27,17 @@ def jobs(tier, seed):
 
     ccs = H.country_jobs(tier, seed)
     rnd = random.Random(seed + 5)
-    full = set(ccs) if tier == "thorough" else set(rnd.sample(ccs, min(8, len(ccs))))
+    full = set(rnd.sample(ccs, min(48 if tier == "thorough" else 8, len(ccs))))
     out = []
     for cc in ccs:
         own = 4 + len(table.classes(cc) or "")
         out.append({"kind": "iban", "cc": cc, "lens": [own]})
         if cc in full:
-            out.append({"kind": "iban", "cc": cc, "lens": [L for L in range(0, 41) if L != own]})
+            lens = [L for L in range(0, 41) if L != own]
+            if tier == "thorough":  # four jobs per country so that the sweep spreads over the cores
+                out += [{"kind": "iban", "cc": cc, "lens": lens[i::4]} for i in range(4)]
+            else:
+                out.append({"kind": "iban", "cc": cc, "lens": lens})
     out.append({"kind": "iban", "cc": "??", "lens": list(range(0, 41))})
     for L in range(0, 15):
         for st in (False, True):
